@@ -444,6 +444,106 @@ fn run_case(case: &[(bool, Vec<WOp>)], rng: &mut Rng, policy: Policy, v: &Verdic
     !had
 }
 
+/// Subscriptions that departed sessions left behind (round 10). A session that watched a key, selected another
+/// database and then went away is still listed for the key (the clean-up at disconnect covers the selected database
+/// only): its channel is closed. Any number of such entries before, between and behind a LIVE subscription must not
+/// cost the live one anything: it hears of every committed change of the key, for as long as it stays, and so does a
+/// second live subscriber. `strategy` is the conflict strategy of the database (C19 runs this on a newer database and
+/// sends stale versioned writes, which are committed there). Returns (cases, notifications judged).
+pub fn leftover_subscriptions_part(v: &Verdicts, check: &str, strategy: &str) -> (u64, u64) {
+    let (node, _adm) = mem_node(&[("lo", strategy), ("elsewhere", "none")]);
+    let dbs = node.dbs.clone();
+    let (mut cases, mut judged) = (0u64, 0u64);
+    let mut keyn = 0u64;
+    for dead_before in 0..=3usize {
+        for dead_between in 0..=2usize {
+            for dead_after in 0..=2usize {
+                for how_left in ["selected-another-database-then-disconnected", "watched-twice-then-selected-another-database-then-disconnected", "channel-dropped-without-any-disconnect-handling"] {
+                    if dead_before + dead_between + dead_after == 0 && how_left != "selected-another-database-then-disconnected" {
+                        continue;
+                    }
+                    cases += 1;
+                    keyn += 1;
+                    let key = format!("lk{}", keyn);
+                    let mut w = Session::new();
+                    w.call(&dbs, "use-db lo tok");
+                    w.call(&dbs, &format!("set {} 0", key));
+                    let depart = |n: usize| {
+                        for _ in 0..n {
+                            let mut d = Session::new();
+                            d.call(&dbs, "use-db lo tok");
+                            d.call(&dbs, &format!("watch {}", key));
+                            match how_left {
+                                "selected-another-database-then-disconnected" => {
+                                    d.call(&dbs, "use-db elsewhere tok");
+                                    d.disconnect(&dbs);
+                                }
+                                "watched-twice-then-selected-another-database-then-disconnected" => {
+                                    d.call(&dbs, &format!("watch {}", key));
+                                    d.call(&dbs, "use-db elsewhere tok");
+                                    d.disconnect(&dbs);
+                                }
+                                _ => drop(d),
+                            }
+                        }
+                    };
+                    depart(dead_before);
+                    let mut live1 = Session::new();
+                    live1.call(&dbs, "use-db lo tok");
+                    live1.call(&dbs, &format!("watch {}", key));
+                    depart(dead_between);
+                    let mut live2 = Session::new();
+                    live2.call(&dbs, "use-db lo tok");
+                    live2.call(&dbs, &format!("watch {}", key));
+                    depart(dead_after);
+                    // six committed changes of every kind; each must reach both live subscribers, in order
+                    let writes: Vec<String> = vec![
+                        format!("set {} a{}", key, keyn),
+                        format!("set-safe {} 900 b{}", key, keyn),
+                        if strategy == "newer" { format!("set-safe {} 0 stale{}", key, keyn) } else { format!("set {} c{}", key, keyn) },
+                        format!("set {} 5", key),
+                        format!("increment {} 2", key),
+                        format!("set {} last{}", key, keyn),
+                    ];
+                    let mut expected: Vec<String> = vec![];
+                    for (i, line) in writes.iter().enumerate() {
+                        let r = w.call(&dbs, line);
+                        if r.is_error() {
+                            continue;
+                        }
+                        let (val, _) = {
+                            let g = w.call_raw(&dbs, &format!("get-safe {}", key));
+                            w.drain();
+                            match g {
+                                nundb::bo::Response::Value { value, version, .. } => (value, version),
+                                _ => (String::from("?"), 0),
+                            }
+                        };
+                        expected.push(val);
+                        for (name, s) in [("first-live-subscriber", &mut live1), ("second-live-subscriber", &mut live2)] {
+                            let got: Vec<String> = s.drain().into_iter().filter(|l| l.starts_with("changed ")).collect();
+                            judged += 1;
+                            let want = format!("changed {} {}\n", key, expected.last().unwrap());
+                            if !got.iter().any(|l| *l == want) {
+                                v.report(
+                                    json!({"check": check, "problem": "committed-change-not-notified", "context": "subscriptions-left-behind-by-departed-sessions", "departed": how_left}),
+                                    json!({"database_strategy": strategy, "departed_before_between_after_the_live_subscribers": [dead_before, dead_between, dead_after], "subscriber": name, "write_number": i + 1, "line": line,
+                                           "reply": r.resp, "expected_notification": want, "got": got, "earlier_writes_were_notified": i}),
+                                );
+                                break;
+                            }
+                        }
+                    }
+                    for s in [w, live1, live2] {
+                        s.disconnect(&dbs);
+                    }
+                }
+            }
+        }
+    }
+    (cases, judged)
+}
+
 pub fn run(tier: &str) -> i32 {
     quiet_panics();
     let thorough = tier == "thorough";
@@ -543,6 +643,8 @@ pub fn run(tier: &str) -> i32 {
             }
         }
     }
+    let leftover = leftover_subscriptions_part(&v, "watch", "none");
+    ev.set("subscriptions_left_behind_by_departed_sessions", json!({"cases": leftover.0, "notifications_judged": leftover.1}));
     // free-running part: real threads, no scheduler. (a) several clients subscribe to one key at the same instant: each
     // acknowledged subscription must be there afterwards; (b) one subscriber stays while others churn (watch / unwatch /
     // unwatch-all on the same key) and a writer writes: the subscriber gets every value once, in order, and the churners
